@@ -72,17 +72,45 @@ def add_epilogue(ircfg, loc_db, epilogue):
         ircfg.blocks[lk] = IRBlock(loc_db, lk, abs_)
 
 
-def fake_epilogue(A):
-    """add r, a ; ret : both ABI output registers are written (not by an identity) in the exit block."""
+EPILOGUES = ("add-ret", "ret")
+
+
+def fake_epilogue(A, epi="add-ret"):
+    """"add-ret": add r, a ; ret : both ABI output registers are written (not by an identity) in the exit block.
+    "ret": only the stack pointer is written there, r holds what earlier blocks left in it (as in lifted code); this
+    form does not fit the IRAOutRegs pattern and is only run through the pipelines driven with the stock lifter."""
     import miasm.expression.expression as m
-    return [{A.r: A.r + A.a}, {A.sp: A.sp + m.ExprInt(4, 32)}]
+    ret = {A.sp: A.sp + m.ExprInt(4, 32)}
+    if epi == "ret":
+        return [ret]
+    return [{A.r: A.r + A.a}, ret]
 
 
-def build_graph(n, shape_idx, body_idx, cond_idx, alphabet, conds):
+def build_graph(n, shape_idx, body_idx, cond_idx, alphabet, conds, epi="add-ret"):
     shape = irgen.shapes(n)[shape_idx]
     g = irgen.build(shape, body_idx, cond_idx, alphabet, conds)
-    add_epilogue(g.ircfg, g.loc_db, fake_epilogue(g.arch))
+    add_epilogue(g.ircfg, g.loc_db, fake_epilogue(g.arch, epi))
     return g
+
+
+class PipelineTimeout(Exception):
+    pass
+
+
+def guarded(fn, cpu_seconds=30):
+    """Runs fn(); a pipeline still running after @cpu_seconds of CPU time of this process (normal: < 0.1 s) is
+    reported as not terminating (the timer counts consumed CPU time, not wall-clock time)."""
+    import signal
+
+    def onalarm(signum, frame):
+        raise PipelineTimeout()
+    old = signal.signal(signal.SIGVTALRM, onalarm)
+    signal.setitimer(signal.ITIMER_VIRTUAL, cpu_seconds)
+    try:
+        return fn()
+    finally:
+        signal.setitimer(signal.ITIMER_VIRTUAL, 0)
+        signal.signal(signal.SIGVTALRM, old)
 
 
 def out_regs_lifter(lifter_cls, *args):
@@ -273,25 +301,29 @@ def used_entries(body_idx, alphabet):
     return sorted(set(alphabet[k] for b in body_idx for k in b))
 
 
-def check_graph(n, shape_idx, body_idx, cond_idx, alphabet, conds, pipelines=PIPELINES):
+def check_graph(n, shape_idx, body_idx, cond_idx, alphabet, conds, pipelines=PIPELINES, epi="add-ret"):
     pipelines = tuple(pipelines)
     shape = irgen.shapes(n)[shape_idx]
     case = {"kind": "irgen", "n": n, "shape": shape_idx, "bodies": body_idx, "conds": cond_idx, "alphabet": alphabet, "condnames": conds,
-            "pipelines": list(pipelines)}
-    desc0 = irgen.describe(shape, body_idx, cond_idx, alphabet, conds)
+            "pipelines": list(pipelines), "epilogue": epi}
+    desc0 = irgen.describe(shape, body_idx, cond_idx, alphabet, conds) + (" [exit blocks end with: %s]" % ("r=r+a; sp=sp+4" if epi == "add-ret" else "sp=sp+4"))
     kind = "loop" if not irgen.shape_is_loop_free(shape) else "dag"
     info = {"states": 0, "skipped_states": 0, "compared": 0, "runs_with_writes": 0, "runs_with_calls": 0, "changed": 0, "raised": 0, "pipeline_runs": 0}
     vs = []
-    g0 = build_graph(n, shape_idx, body_idx, cond_idx, alphabet, conds)
+    g0 = build_graph(n, shape_idx, body_idx, cond_idx, alphabet, conds, epi)
     it0 = irinterp.Interp(g0.loc_db)
     before = graph_text(g0.ircfg)
     for pipeline in pipelines:
         info["pipeline_runs"] += 1
         desc = "[%s] %s" % (pipeline, desc0)
-        g = build_graph(n, shape_idx, body_idx, cond_idx, alphabet, conds)
+        g = build_graph(n, shape_idx, body_idx, cond_idx, alphabet, conds, epi)
         lifter = out_regs_lifter(type(g.lifter), g.loc_db) if pipeline == "ssa-outregs" else g.lifter
         try:
-            out, var2orig = run_pipeline(pipeline, lifter, g.ircfg, g.head)
+            out, var2orig = guarded(lambda: run_pipeline(pipeline, lifter, g.ircfg, g.head))
+        except PipelineTimeout:
+            info["raised"] += 1
+            vs.append(violation("%s:pipeline-does-not-terminate:%s" % (pipeline, kind), "%s: the pipeline is still running after 30 s of CPU time" % desc, case))
+            continue
         except Exception as e:
             info["raised"] += 1
             vs.append(violation("%s:raise:%s:%s" % (pipeline, type(e).__name__, kind), "%s: the pipeline raised %r" % (desc, e), case))
@@ -327,7 +359,11 @@ def check_x86(idx, pipelines=X86_PIPELINES):
         desc = "[%s] x86_32 function %s {%s }" % (pipeline, name, " ;".join(l.strip() for l in x86funcs.FUNCS[idx][1].splitlines()))
         f = x86funcs.lift(idx)
         try:
-            out, var2orig = run_pipeline(pipeline, f.lifter, f.ircfg, f.head)
+            out, var2orig = guarded(lambda: run_pipeline(pipeline, f.lifter, f.ircfg, f.head))
+        except PipelineTimeout:
+            info["raised"] += 1
+            vs.append(violation("%s:pipeline-does-not-terminate:%s" % (pipeline, kind), "%s: the pipeline is still running after 30 s of CPU time" % desc, case))
+            continue
         except Exception as e:
             info["raised"] += 1
             vs.append(violation("%s:raise:%s:%s" % (pipeline, type(e).__name__, kind), "%s: the pipeline raised %r" % (desc, e), case))
@@ -351,7 +387,7 @@ def _shard(args):
             sigs[x["sig"]] = sigs.get(x["sig"], 0) + 1
         from mc import x86funcs
         return 1, 1 if info["changed"] and info["compared"] else 0, v, "x86:" + x86funcs.FUNCS[args[1]][0], sigs, info
-    _, n, maxlen, alphabet, conds, lo, hi, pipelines = args
+    _, n, maxlen, alphabet, conds, lo, hi, pipelines, epi = args
     shapes = irgen.shapes(n)
     bl = irgen.bodies(alphabet, maxlen)
     cnt = nt = 0
@@ -367,13 +403,13 @@ def _shard(args):
         for body_idx in itertools.product(bl, repeat=n):
             for cond_idx in itertools.product(*[range(k) for k in ncond]):
                 cnt += 1
-                v, info = check_graph(n, si, body_idx, cond_idx, alphabet, conds, pipelines)
+                v, info = check_graph(n, si, body_idx, cond_idx, alphabet, conds, pipelines, epi)
                 for k, x in info.items():
                     tot[k] = tot.get(k, 0) + x
                 if info["changed"] and info["compared"]:
                     nt += 1
                     if sample is None and sum(len(b) for b in body_idx) >= 2:
-                        sample = irgen.describe(shape, body_idx, cond_idx, alphabet, conds)
+                        sample = irgen.describe(shape, body_idx, cond_idx, alphabet, conds) + " [%s]" % epi
                 for x in v:
                     sigs[x["sig"]] = sigs.get(x["sig"], 0) + 1
                     if sigs[x["sig"]] <= 2:
@@ -385,20 +421,26 @@ ALL3 = ("common", "ssa", "ssa-outregs")
 TWO = ("common", "ssa")
 ALPHA_REG = ["a=b", "a=a+1", "swap"]
 ALPHA_MIX = ["a=b", "a=a+1", "swap", "r=a", "@[sp+4]=a", "a=@[sp+4]"]
+ALPHA_MIX3 = ["a=b", "a=a+1", "swap", "@[sp+4]=a", "a=@[sp+4]"]
 ALPHA_MEM = ["@[sp+4]=a", "a=@[sp+4]", "@[a]=b", "r=call(a)", "sp=sp-4"]
+ALPHA_N2 = ["a=b", "a=a+1", "swap", "r=a", "@[sp+4]=a", "a=@[sp+4]", "@[a]=b", "r=call(a)", "sp=sp-4"]
 PLAN_Q = [
-    (1, 2, ALPHA_FULL, ["a"], TWO),
-    (2, 1, ALPHA_FULL, ["a"], ALL3),
-    (3, 1, ["a=a+1", "swap"], ["a"], ("ssa",)),
+    (1, 2, ALPHA_FULL, ["a"], TWO, "add-ret"),
+    (1, 2, ALPHA_FULL, ["a"], TWO, "ret"),
+    (2, 1, ALPHA_N2, ["a"], ALL3, "add-ret"),
+    (2, 1, ALPHA_N2, ["a"], TWO, "ret"),
+    (3, 1, ["a=a+1", "swap"], ["a"], ("ssa",), "add-ret"),
 ]
 PLAN_T = [
-    (1, 3, ALPHA_FULL, ["a"], TWO),
-    (2, 2, ALPHA_MIX, ["a"], TWO),
-    (2, 1, ALPHA_FULL, ["a", "a==b", "a<u2"], ALL3),
-    (3, 1, ALPHA_MIX, ["a"], TWO),
-    (3, 1, ALPHA_MEM, ["a"], ("ssa",)),
-    (4, 1, ["swap"], ["a"], ("ssa",)),
-    (4, 1, ["a=a+1"], ["a"], ("ssa",)),
+    (1, 3, ALPHA_FULL, ["a"], TWO, "add-ret"),
+    (1, 2, ALPHA_FULL, ["a"], TWO, "ret"),
+    (2, 2, ALPHA_MIX, ["a"], TWO, "add-ret"),
+    (2, 1, ALPHA_FULL, ["a", "a==b", "a<u2"], ALL3, "add-ret"),
+    (2, 1, ALPHA_FULL, ["a"], TWO, "ret"),
+    (3, 1, ALPHA_MIX3, ["a"], TWO, "add-ret"),
+    (3, 1, ALPHA_MEM, ["a"], ("ssa",), "add-ret"),
+    (3, 1, ["a=a+1", "r=a", "r=call(a)"], ["a"], TWO, "ret"),
+    (4, 1, ["swap"], ["a"], ("ssa",), "add-ret"),
 ]
 
 
@@ -417,11 +459,11 @@ def run(ctx):
     plan = PLAN_Q if ctx.quick else PLAN_T
     _preimport()
     shards = []
-    for n, maxlen, alphabet, conds, pipelines in plan:
+    for n, maxlen, alphabet, conds, pipelines, epi in plan:
         ns = len(irgen.shapes(n))
         idx = [i for i in range(ns) if irgen.shape_has_exit(irgen.shapes(n)[i])]
         for i in idx:
-            shards.append(("irgen", n, maxlen, alphabet, conds, i, i + 1, pipelines))
+            shards.append(("irgen", n, maxlen, alphabet, conds, i, i + 1, pipelines, epi))
     nx86 = 0
     if not ctx.quick:
         from mc import x86funcs
@@ -452,7 +494,7 @@ def run(ctx):
         "violating_graphs_by_signature": sigcount,
         "samples": [r[3] for r in res if r[3]][:6],
         "exhaustive": True,
-        "bounds": {"plan(blocks,max_assignments,alphabet,conditions,pipelines)": [[n, l, a, c, list(p)] for n, l, a, c, p in plan],
+        "bounds": {"plan(blocks,max_assignments,alphabet,conditions,pipelines,exit_epilogue)": [[n, l, a, c, list(p), e] for n, l, a, c, p, e in plan],
                    "fuel_blocks": FUEL, "x86_pipelines": list(X86_PIPELINES),
                    "state_lattice": "a,b in {0,1,2,0xFFFFFFFF} (when read), sp in {0x1000,0xFFFFFFFC} and bytes sp+4..sp+11 in {address pattern, zero} (when memory is used)"},
     }
@@ -462,4 +504,4 @@ def replay(case):
     if case.get("kind") == "x86":
         return check_x86(case["index"])[0]
     return check_graph(case["n"], case["shape"], tuple(tuple(b) for b in case["bodies"]), tuple(case["conds"]), list(case["alphabet"]),
-                       list(case["condnames"]), tuple(case.get("pipelines", PIPELINES)))[0]
+                       list(case["condnames"]), tuple(case.get("pipelines", PIPELINES)), case.get("epilogue", "add-ret"))[0]
